@@ -117,7 +117,11 @@ fn run<Rm: ModeTag, const B: Word>(m: &mut Mon, r: &mut Rng) {
     let base = B as u32;
     let p = precision(m, r);
     let ctx = Context::<Rm>::new(p);
+    // the Context methods take any Repr: one case in eight has an argument with more digits than the precision
+    // (the bound still refers to the exact argument given)
+    let overlong = r.chance(1, 8);
     let nd = match r.below(5) {
+        _ if overlong => p + 1 + r.usize(30),
         0 => 1,
         1 => p,
         _ => 1 + r.usize(p.min(40)),
@@ -252,7 +256,7 @@ fn run<Rm: ModeTag, const B: Word>(m: &mut Mon, r: &mut Rng) {
                 0 => (BigInt::one(), 0),
                 1 => {
                     // 1 + B^-k and 1 - B^-k within the precision
-                    let k = 1 + r.usize(p.max(2) - 1);
+                    let k = if overlong { p + r.usize(30) } else { 1 + r.usize(p.max(2) - 1) };
                     let bk = Pow::pow(&BigInt::from(base), k);
                     (if r.bool() { &bk + 1 } else { &bk - 1 }, -(k as i64))
                 }
@@ -281,7 +285,13 @@ fn run<Rm: ModeTag, const B: Word>(m: &mut Mon, r: &mut Rng) {
                 2 => -(nd as i64),
                 _ => -(nd as i64) + r.range(-3, 4),
             };
-            let sx = if neg { -s.clone() } else { s.clone() };
+            let (sx, e) = if overlong && r.bool() {
+                // just above -1 with more digits than the precision: -1 + B^-k
+                let k = p + r.usize(30);
+                { let bk: BigInt = Pow::pow(&BigInt::from(base), k); (-(bk - 1i32), -(k as i64)) }
+            } else {
+                (if neg { -s.clone() } else { s.clone() }, e)
+            };
             let x = q_of_parts(&sx, e, base);
             if x <= -Q::one() {
                 return;
@@ -290,7 +300,7 @@ fn run<Rm: ModeTag, const B: Word>(m: &mut Mon, r: &mut Rng) {
             let res = catch(|| ctx.ln_1p(&rx));
             let xx = x.clone();
             let d = || format!("ln_1p mode={} base={} p={} x={}*{}^{}", Rm::M.name(), base, p, sx, base, e);
-            let h = dvh::gen::hash_limbs((e as u64) << 20 ^ (p as u64) << 44 ^ 4, &limbs_of_nat(s.magnitude())) ^ neg as u64;
+            let h = dvh::gen::hash_limbs((e as u64) << 20 ^ (p as u64) << 44 ^ 4, &limbs_of_nat(sx.magnitude())) ^ neg as u64;
             judge(m, "ln_1p", Some(Func::Ln1p), &x, res, None, &move |k| enclose(Func::Ln1p, &xx, k), &d, h);
         }
         10..=12 => {
@@ -329,7 +339,7 @@ fn run<Rm: ModeTag, const B: Word>(m: &mut Mon, r: &mut Rng) {
                 Some(pow_q(base, ne * n) * sgn)
             } else if cheap {
                 Some(Pow::pow(&x, n as i32))
-            } else if (n.unsigned_abs() as u64) * ns.bits() <= 3_000_000 && (ne * n).unsigned_abs() <= 4_000_000 {
+            } else if (n.unsigned_abs() as u64) * ns.bits() <= 300_000 && (ne * n).unsigned_abs() <= 1_000_000 {
                 // the power of the significand alone is affordable: s^|n| = m * B^k (m not divisible by B).
                 // n > 0: x^n = m * B^(k + e n), exactly.  n < 0: x^n = B^(-e|n|) / s^|n| has a finite
                 // expansion in base B iff s^|n| divides a power of B (e.g. s = 4, B = 16); otherwise the true
